@@ -622,7 +622,9 @@ let run_k args =
          let trace = String.concat " " (List.map (fun (t, e) -> string_of_int (int_of_nat t) ^ ":" ^ show_cev e) tr) in
          let show_handle (p, e) =
            let path = String.concat "" (List.map (fun i -> "/" ^ string_of_int (int_of_nat i)) (List.rev p)) in
-           let s = true_off_pos g p in
+           (* the offset stored with the element when its slot was filled: computed by the installing thread from the
+              route it took (C05_handles_carry_true_offsets: it is the true offset whoever that was) *)
+           let s = int_of_n (off_of sf.c_offs p) in
            let e_ = s + int_of_n (len_at g p) in
            match e with
            | ENode b -> Printf.sprintf "n%s#%d@%d..%d" path (int_of_nat b) s e_
@@ -647,6 +649,11 @@ let run_k args =
 let run_line line =
   match List.filter (fun s -> s <> "") (String.split_on_char ' ' line) with
   | [] -> ""
+  | "E" :: kind :: rest ->
+    (* an example parser of the repository (C01): by build_text the tree's text is the concatenation of the token texts
+       fed to the builder; a lossless parser feeds every piece of its input, in order *)
+    let pieces = if kind = "math" then List.map (fun a -> match String.index_opt a ':' with Some i -> String.sub a (i + 1) (String.length a - i - 1) | None -> "") rest else rest in
+    "text=" ^ String.concat "." (List.filter (fun x -> x <> "") pieces)
   | "M" :: _ -> "ok"      (* a Miri run: the model's claim is the theorem (no race) *)
   | "B" :: args -> run_b args
   | "H" :: args -> run_h args
